@@ -9,7 +9,8 @@ import RModel.Model.Apply
     and `coercion.rs::apply_coercion` as the planner uses it on file names
     (`detect_style`, `tokenize`, `render_tokens`, `replace_case_insensitive`, `extract_prefix`).
 
-  State of the source modelled: /repo HEAD ed3f0d7 (with 4d2e5a7 `dedup_renames`, 4ad17ef, ed3f0d7).
+  State of the source modelled: /repo HEAD 0109402 (with 4d2e5a7 `dedup_renames`, 4ad17ef, ed3f0d7, 0109402); the two
+  shape flags of `Tables` are generated from the source.
 
   Parameters (not modelled here, compared differentially):
    * the walker's entry list per root (`Entry` = path + what `entry.file_type()` says); scope is C09's subject.
@@ -72,6 +73,12 @@ structure Tables where
   extMax   : Nat
   reserved : List Bytes
   isAcr    : Bytes → Bool
+  /-- shape of `determine_filename_replacement` (generated: `Gen.renameAllVariantsInName`): rewrite every occurrence of
+      every variant in the name (true) or only the first key found in map order (false) -/
+  allVariants : Bool := false
+  /-- `scan_repository_multi` checks the merged list of all roots for shared destinations (generated:
+      `Gen.crossRootConflictCheck`; true since 0109402) -/
+  crossRootCheck : Bool := false
 
 /-- the part of `s` whose style is detected: a known file extension is cut off -/
 def styleBase (T : Tables) (s : Bytes) : Bytes :=
@@ -284,10 +291,37 @@ structure Opts where
 def firstKey (vmap : List VEntry) (name : Bytes) : Option VEntry :=
   vmap.find? (fun v => containsSub name v.key)
 
-/-- the candidate new name once the key is known: plain replacement of the key by the value (or by the
-    resolver's rendering for an ambiguous key), overridden by coercion when coercion applies -/
-def candidate (T : Tables) (o : Opts) (v : VEntry) (name : Bytes) : Bytes :=
-  let plain := replaceAll name v.key (if o.withSearch then v.amb.getD v.val else v.val)
+/-- the text that replaces an occurrence of a key in `determine_filename_replacement`: the mapped variant, or for
+    an ambiguous key the rendering the resolver picks -/
+def replOf (v : VEntry) : Bytes := v.amb.getD v.val
+
+/-- the first variant (map order) that starts at the head of `s` -/
+def startsHere (vmap : List VEntry) (s : Bytes) : Option VEntry :=
+  vmap.find? (fun v => !v.key.isEmpty && v.key.isPrefixOf s)
+
+/-- the scan of the patched `determine_filename_replacement`: left to right, at each position the first variant in
+    map order that starts there is replaced (`skip` = bytes of the current occurrence still to be dropped) -/
+def rewriteGo (vmap : List VEntry) : Bytes → Nat → Bytes
+  | [], _ => []
+  | _ :: cs, skip + 1 => rewriteGo vmap cs skip
+  | c :: cs, 0 =>
+    match startsHere vmap (c :: cs) with
+    | some v => replOf v ++ rewriteGo vmap cs (v.key.length - 1)
+    | none => c :: rewriteGo vmap cs 0
+
+def rewriteAll (vmap : List VEntry) (name : Bytes) : Bytes := rewriteGo vmap name 0
+
+/-- the name before coercion.  With search/replace: all variants rewritten (`T.allVariants`) or every occurrence of
+    the first key found in map order; without (the compatibility API): the first key, plain value -/
+def plainName (T : Tables) (o : Opts) (vmap : List VEntry) (v : VEntry) (name : Bytes) : Bytes :=
+  if o.withSearch then
+    (if T.allVariants then rewriteAll vmap name else replaceAll name v.key (replOf v))
+  else replaceAll name v.key v.val
+
+/-- the candidate new name once the first key `v` is known: `plainName`, overridden by coercion (on the first key)
+    when coercion applies -/
+def candidate (T : Tables) (o : Opts) (vmap : List VEntry) (v : VEntry) (name : Bytes) : Bytes :=
+  let plain := plainName T o vmap v name
   if o.coerce then (applyCoercion T name v.key v.val).getD plain else plain
 
 /-- new name for a file name, `none` = no rename is collected -/
@@ -295,7 +329,7 @@ def newNameFor (T : Tables) (o : Opts) (vmap : List VEntry) (name : Bytes) : Opt
   match firstKey vmap name with
   | none => none
   | some v =>
-    let n := candidate T o v name
+    let n := candidate T o vmap v name
     if o.withSearch && n == name then none else some n
 
 def kindOf : EKind → Kind
@@ -389,11 +423,19 @@ def dedupRens : List Ren → List Ren
   | [] => []
   | r :: rs => r :: (dedupRens rs).filter (fun x => !(x.path == r.path))
 
-/-- the `paths` of `scan_repository_multi`: the loop, then `dedup_renames` -/
+/-- two planned renames with different sources share a (non-empty) destination -/
+def sharedDest (rs : List Ren) : Bool :=
+  rs.any (fun r => !r.newPath.isEmpty && rs.any (fun r' => r'.newPath == r.newPath && !(r'.path == r.path)))
+
+/-- the `paths` of `scan_repository_multi`: the loop, then `dedup_renames`, then (since 0109402,
+    `T.crossRootCheck`) the merged list is checked once more: every root was checked on its own, renames found under
+    different roots can still share a destination — that refuses the scan with one conflict -/
 def planMulti (T : Tables) (o : Opts) (vmap : List VEntry) (ess : List (List Entry)) : Except Nat (List Ren) :=
   match planLoop T o vmap ess with
   | .error n => .error n
-  | .ok rs => .ok (dedupRens rs)
+  | .ok rs =>
+    let d := dedupRens rs
+    if T.crossRootCheck && sharedDest d then .error 1 else .ok d
 
 /-- `separate_root_renames` + `filter_renames_by_root_policy`, parametric in how a path is located (`loc`):
     a rename whose source is located at one of the search roots is dropped unless `--rename-root` -/
